@@ -88,6 +88,7 @@ struct Task {
 	SimMutex *blocked_on = nullptr;
 	// spin detection
 	int spin_n = 0, nwatch = 0, spin_limit = 16;
+	uint64_t parked_at = 0;
 	uint64_t watch_off[4]; uint64_t watch_val[4];
 	bool last_cas_spurious = false;
 	// fences
@@ -329,6 +330,12 @@ static inline void sched_point(int kind) {
 	r.steps++;
 	if (r.steps > r.cap2) violation("no_progress", "step cap %llu exceeded (%s)", (unsigned long long)r.cap2, r.cur == 0 ? "setup/teardown context" : "fair phase");
 	if (r.cur == 0) return;
+	if ((r.steps & 1023) == 0) {
+		// Parking is a heuristic. A task parked by mistake (a bounded scan that re-reads one unchanged atomic many times)
+		// while the others keep running without ever storing to what it watches must not stay parked for good: after
+		// 2000 steps it is released with a 4x larger threshold. A real spinner is simply parked again.
+		for (int t = 1; t <= r.ntasks; t++) { Task &x = r.tasks[t]; if (x.st == T_PARKED && r.steps - x.parked_at > 2000 && x.spin_limit < (1 << 16)) { x.st = T_RUN; x.spin_limit *= 4; x.spin_n = 0; x.nwatch = 0; } }
+	}
 	if (!r.fair && r.steps > r.cap1) { r.fair = true; r.res.capped = true; }
 	int next = decide(false, kind);
 	if (next != r.cur) switch_to(next);
@@ -365,10 +372,12 @@ static void drop_locs(uint64_t o, size_t n) {
 	}
 }
 
-static uint64_t g_watch = ~0ull; static bool g_watch_init = false;
+static uint64_t g_watch = ~0ull, g_trace_from = ~0ull; static bool g_watch_init = false;
 static void race_access(const void *addr, size_t n, bool write, bool atomic) {
 	Run &r = *R;
-	if (!g_watch_init) { g_watch_init = true; if (const char *w = getenv("SIM_WATCH")) g_watch = strtoull(w, nullptr, 0); }
+	if (!g_watch_init) { g_watch_init = true; if (const char *w = getenv("SIM_WATCH")) g_watch = strtoull(w, nullptr, 0); if (const char *f = getenv("SIM_TRACE_FROM")) g_trace_from = strtoull(f, nullptr, 0); }
+	if (r.steps >= g_trace_from && r.steps < g_trace_from + 80)
+		fprintf(stderr, "trace: step %llu task %d op %d(kind %d) %s%s +0x%llx n=%zu\n", (unsigned long long)r.steps, r.cur, r.tasks[r.cur].opid, r.tasks[r.cur].opkind, atomic ? "atomic " : "", write ? "WRITE" : "read", (unsigned long long)off(addr), n);
 	if (g_watch != ~0ull && off(addr) <= g_watch && g_watch < off(addr) + n)
 		fprintf(stderr, "watch: step %llu task %d op %d(kind %d) %s%s +0x%llx n=%zu clk=%u\n", (unsigned long long)r.steps, r.cur, r.tasks[r.cur].opid, r.tasks[r.cur].opkind, atomic ? "atomic " : "", write ? "WRITE" : "read", (unsigned long long)off(addr), n, r.tasks[r.cur].clk.c[r.cur]);
 	int me = r.cur;
@@ -593,7 +602,7 @@ static void spin_account(Task &t, uint64_t o, uint64_t val, Loc &L) {
 	(void)L;
 	if (newer) { spin_reset(t); return; }
 	if (count_enabled() == 1 && r.ntasks == 1) { /* single task spinning forever */ }
-	t.st = T_PARKED;
+	t.st = T_PARKED; t.parked_at = r.steps;
 	forced_switch();
 	// resumed: woken by a store
 }
